@@ -111,6 +111,27 @@ def run(chk):
             for variant in (u, True, up.coarsen(rng.fork(("co", len(srcs))), u)):
                 srcs.append(src)
                 plans.append(([D0, D1], [{"create": D0}, {"update": D1, "U": up.tree_to_req(variant)}]))
+    # two updates in a row on keyed lists: a reordering of the same length under one kind of tree (`true`: the list expression is handed `undefined`;
+    # exact; coarsened), then a change of one position under another kind — the keys remembered after the first update are the ones the second compares
+    # with (round 12, C06-14: keys not regenerated for an "untouched" list of unchanged length)
+    arr3 = [{"k": "a", "p": 1}, {"k": "b", "p": 2}, {"k": "c", "p": 3}, {"k": "d", "p": 4}]
+    perms = [[2, 0, 1, 3], [3, 2, 1, 0], [1, 0, 3, 2]]
+    for key in ("k", "*this"):
+        for body in ("{{item.k}}{{item.p}}", "<v data-a=\"{{item.p}}\">{{item.k}}</v>"):
+            src = '<view wx:for="{{list}}" wx:key="%s">%s</view><template name="t"><v wx:for="{{list}}" wx:key="%s">%s</v></template><template is="t" data="{{ ...pg, list: list }}"/>' % (key, body, key, body)
+            for pm in perms:
+                D0 = {"list": arr3 if key == "k" else ["a", "b", "c", "d"], "pg": {"z": 1}}
+                D1 = dict(D0, list=[D0["list"][j] for j in pm])
+                for pos in (3, 0):
+                    D2 = dict(D1, list=list(D1["list"]))
+                    D2["list"][pos] = ({"k": D1["list"][pos]["k"], "p": 99} if key == "k" else "zz")
+                    D3 = dict(D1, list=list(D1["list"]))
+                    D3["list"][pos] = ({"k": "new", "p": 5} if key == "k" else D1["list"][(pos + 1) % 4])
+                    for Dn in (D2, D3):
+                        u1, u2 = up.diff_tree(D0, D1), up.diff_tree(D1, Dn)
+                        for v1, v2 in ((True, u2), (u1, u2), (True, True), (u1, True), (up.coarsen(rng.fork(("c2", len(srcs))), u1), u2)):
+                            srcs.append(src)
+                            plans.append(([D0, D1, Dn], [{"create": D0}, {"update": D1, "U": up.tree_to_req(v1)}, {"update": Dn, "U": up.tree_to_req(v2)}]))
     # path writes through the REAL tree builder (tmpl/index.ts): setData-style changes, some of which create an intermediate object
     for src, D0, changes in path_write_scenarios():
         D1 = copy.deepcopy(D0)
